@@ -156,6 +156,11 @@ Theorem C11_plen_digits_whole :
 Proof. exact plen_digits_whole. Qed.
 Print Assumptions C11_plen_digits_whole.
 
+Theorem C11_render_quad_injective :
+  forall a b, (0 <= a < 2 ^ 32)%Z -> (0 <= b < 2 ^ 32)%Z -> render_quad a = render_quad b -> a = b.
+Proof. exact render_quad_injective. Qed.
+Print Assumptions C11_render_quad_injective.
+
 Theorem C11_v6_parse_shape :
   forall s a p, v6_parse s = Some (a, p) -> exists t addr, v6_text s = Some t /\ (length t <= v6_maxlen)%nat /\ v6_addr addr = Some a /\ forallb (fun x => negb (N.eqb x c_slash)) addr = true /\ ((t = addr /\ p = 128%Z) \/ (exists m, t = addr ++ c_slash :: m /\ plen6_of_digits m = Some p)).
 Proof. exact v6_parse_shape. Qed.
@@ -180,3 +185,8 @@ Theorem C11_render6_cidr_parses :
   forall a p, (0 <= a < 2 ^ 128)%Z -> (0 <= p <= 128)%Z -> v6_parse (render6_cidr a p) = Some (a, p).
 Proof. exact render6_cidr_parses. Qed.
 Print Assumptions C11_render6_cidr_parses.
+
+Theorem C11_render6_injective :
+  forall a b, (0 <= a < 2 ^ 128)%Z -> (0 <= b < 2 ^ 128)%Z -> render6 a = render6 b -> a = b.
+Proof. exact render6_injective. Qed.
+Print Assumptions C11_render6_injective.
